@@ -220,7 +220,7 @@ def oracle_sample(case):
             tt = ref.tau_theory(fam, theta)
             fin = np.isfinite(X[:, 0]) & np.isfinite(X[:, 1])
             tn = vs.tau_a(X[fin, 0], X[fin, 1])
-            band = vs.tau_band(int(fin.sum())) + 0.03
+            band = vs.tau_band_bernstein(int(fin.sum()), tt) + 0.03
             require(abs(tn - tt) <= band, 'd=2: Kendall tau of the sample %.3f, selected %s(theta=%.4g) implies %.3f (band %.3f)' % (tn, fam, theta, tt, band),
                     tag='dependence')
         cls.append('d=2-law')
